@@ -4,9 +4,10 @@
   and never defaulted.
 -/
 import G9.Driver.Wire
+import G9.Driver.Logger
 open G9 G9.Driver
 
-def handlers : List (String → List String → Option String) := [wire]
+def handlers : List (String → List String → Option String) := [wire, logger]
 
 def answer (line : String) : String :=
   match (line.trimAscii.toString.splitOn " ").filter (· ≠ "") with
